@@ -767,13 +767,20 @@ class XMLConverter(PDFConverter[AnyIO]):
     def write_text(self, text: str) -> None:
         if self.stripcontrol:
             text = self.CONTROL.sub("", text)
-        self.write(enc(text))
+        # a literal carriage return would be read back as a line feed
+        self.write(enc(text).replace("\r", "&#13;"))
 
     def enc_attr(self, value: str) -> str:
         """Encode a document-controlled name for use as an attribute value"""
         if self.stripcontrol and isinstance(value, str):
             value = self.CONTROL.sub("", value)
-        return enc(value)
+        # literal white space in an attribute value is normalized to a space
+        return (
+            enc(value)
+            .replace("\t", "&#9;")
+            .replace("\n", "&#10;")
+            .replace("\r", "&#13;")
+        )
 
     def receive_layout(self, ltpage: LTPage) -> None:
         def show_group(item: LTItem) -> None:
